@@ -32,7 +32,9 @@ func init() {
 
 // isNameValidator: a boolean function of one string that compares it with ".." and tests for '/'.
 func isNameValidator(f *ssa.Function) bool {
-	if f == nil || f.Blocks == nil || len(f.Params) != 1 || f.Signature.Results().Len() != 1 || !isBool(f.Signature.Results().At(0).Type()) {
+	// a predicate (bool) or a check (error)
+	if f == nil || f.Blocks == nil || len(f.Params) != 1 || f.Signature.Results().Len() != 1 ||
+		!(isBool(f.Signature.Results().At(0).Type()) || isErrorType(f.Signature.Results().At(0).Type())) {
 		return false
 	}
 	p := f.Params[0]
@@ -70,13 +72,18 @@ func isNameValidator(f *ssa.Function) bool {
 	if !slash {
 		isByteOfName := func(v ssa.Value) bool {
 			elemOf := func(x ssa.Value) bool {
+				// name[i] with a loop counter as index
+				var base, idx ssa.Value
 				switch e := x.(type) {
 				case *ssa.Index: // string and array indexing
-					return e.X == ssa.Value(p)
+					base, idx = e.X, e.Index
 				case *ssa.Lookup:
-					return e.X == ssa.Value(p)
+					base, idx = e.X, e.Index
+				default:
+					return false
 				}
-				return false
+				ph, isPhi := idx.(*ssa.Phi)
+				return base == ssa.Value(p) && isPhi && isLoopPhi(ph)
 			}
 			if elemOf(v) {
 				return true
@@ -90,8 +97,18 @@ func isNameValidator(f *ssa.Function) bool {
 			}
 			return false
 		}
-		header, _, _ := loopOverLen(f, func(os []string) bool { return len(os) == 1 && os[0] == "param:"+p.Name() })
-		if header != nil {
+		// the loop runs up to len(name): some comparison of a counter with len(name) exists
+		lenCmp := false
+		instrs(f, func(_ *ssa.BasicBlock, _ int, ins ssa.Instruction) {
+			if bo, ok := ins.(*ssa.BinOp); ok && (bo.Op == token.LSS || bo.Op == token.GEQ || bo.Op == token.GTR || bo.Op == token.LEQ || bo.Op == token.NEQ || bo.Op == token.EQL) {
+				for _, side := range []ssa.Value{bo.X, bo.Y} {
+					if lc := lenCallOf(side); lc != nil && lc.Call.Args[0] == ssa.Value(p) {
+						lenCmp = true
+					}
+				}
+			}
+		})
+		if lenCmp {
 			for _, g := range fnsDeep(f) {
 				instrs(g, func(_ *ssa.BasicBlock, _ int, ins ssa.Instruction) {
 					bo, ok := ins.(*ssa.BinOp)
@@ -112,6 +129,13 @@ func isNameValidator(f *ssa.Function) bool {
 	// and it can answer false
 	canFalse := false
 	for _, r := range returnsOf(f) {
+		if isErrorType(r.Results[0].Type()) {
+			// the check form: some return yields a constructed error
+			if !isNilConst(unspill(r, r.Results[0])) {
+				canFalse = true
+			}
+			continue
+		}
 		if hasOrigin(r.Results[0], func(o string) bool {
 			return o == "const:false" || strings.HasPrefix(o, "unop:") || strings.HasPrefix(o, "binop:") || strings.HasPrefix(o, "call:")
 		}) {
@@ -164,7 +188,36 @@ func c18NameSanitised(c *Ctx) {
 		validators = append(validators, fnKey(c.staticFn(call)))
 		for _, b := range fn.Blocks {
 			iff := lastIf(b)
-			if iff == nil || stripNot(iff.Cond) != ssa.Value(call) {
+			if iff == nil {
+				continue
+			}
+			if isErrorType(call.Type()) {
+				// check form: the edge on which the returned error is nil
+				cm, truth, ok := cmpOf(iff.Cond)
+				if !ok || (cm.op != token.EQL && cm.op != token.NEQ) || !(isNilConst(cm.x) || isNilConst(cm.y)) {
+					continue
+				}
+				subj := cm.x
+				if isNilConst(cm.x) {
+					subj = cm.y
+				}
+				isCall := subj == ssa.Value(call) // (leaves() would look through a new helper into its returns)
+				for _, l := range leaves(subj) {
+					if l == ssa.Value(call) {
+						isCall = true
+					}
+				}
+				if !isCall {
+					continue
+				}
+				if (cm.op == token.EQL) == truth {
+					acc[edge{b, b.Succs[0]}] = true
+				} else {
+					acc[edge{b, b.Succs[1]}] = true
+				}
+				continue
+			}
+			if stripNot(iff.Cond) != ssa.Value(call) {
 				continue
 			}
 			_, truth, _ := cmpOf(iff.Cond)
